@@ -55,12 +55,16 @@ func limbs(a *FE) []uint64 {
 	return out
 }
 
+// Phase tags the operand envelope: "direct" while the layer workload drives
+// the routines itself, "api" while real API executions drive them.
+var Phase = "direct"
+
 func note(fn string, operand string, a *FE) {
 	envMu.Lock()
 	for i := 0; i < FieldLimbs; i++ {
-		k := fn + "/" + operand + "/limb" + [2]string{"even", "odd"}[i&1]
+		k := Phase + "/" + fn + "/" + operand + "/limb" + [2]string{"even", "odd"}[i&1]
 		if i == 0 {
-			k = fn + "/" + operand + "/limb0"
+			k = Phase + "/" + fn + "/" + operand + "/limb0"
 		}
 		if v := uint64(a[i]); v > env[k] {
 			env[k] = v
